@@ -51,6 +51,8 @@ def same_from_every_source(ctx, n):
         pcache.parser_cache.pop(g._hashed, None)
         # the cache: memory entry, then the pickle
         text = hist[-1]
+        if any(0xD800 <= ord(ch) <= 0xDFFF for ch in text):
+            continue           # a lone surrogate cannot be stored in a UTF-8 file: the cache part does not apply
         shutil.rmtree(root, ignore_errors=True)
         os.makedirs(root, exist_ok=True)
         f = os.path.join(root, 'm.py')
@@ -85,3 +87,23 @@ def run(ctx, b, drv):
     base.mismatches(ctx, pend0, streams.run_issues(ctx, base.scale(ctx, 1500), drv), None)
     pend0.flush()
     base.std_text_check(ctx, b, drv, VFILES, ['prefix'], pred, 1500, 1000, 'c20')
+    sweep(ctx)
+
+
+def sweep(ctx):
+    """the comparison corpus (every operand shape around every comparison operator) and the near-miss programs, one grammar version per program"""
+    import parso
+    from harness import gens
+    vs = streams.versions()
+    for i, code in enumerate(gens.COMPARISONS + gens.SEMANTIC[:400]):
+        v = vs[(i + int(ctx.seed or 0)) % len(vs)]
+        ctx.count('c20-sweep')
+        try:
+            m = parso.load_grammar(version=v).parse(code)
+            sig = pred(v, code, m)
+        except RecursionError:
+            continue
+        except Exception as e:
+            sig = preds.crash_sig(e)
+        if sig:
+            ctx.violation(sig, dict(kind='input', stream='c20-sweep', index=i, version=v, input_text=code, input_cps=[ord(c) for c in code], observed=sig))
